@@ -20,5 +20,5 @@ NOT_APPLICABLE = {
            'contract on, no std::fs/io/fmt specs in Verus, no file-system model in Kani.',
     'C14': 'every mechanism is out of reach: Env is Vec<BTreeMap<String,T>> (no vstd spec; Kani > 7 min for 4 operations), mux_envs '
            'iterates BTreeMaps, assignment/scoping/branch merging are arms of compile.',
- 'C08': UNDER_CONSTRUCTION,
+
 }
